@@ -165,7 +165,7 @@ const LEX_CHARS: [char; 17] = [
     '<', '=', '>', '-', '!', '&', '|', 'a', '1', '\'', '"', '{', '}', '_', ' ', '\u{e9}', '\u{663}',
 ];
 
-const SPELLINGS: [&str; 64] = [
+pub const SPELLINGS: [&str; 64] = [
     "a", "b", "x1", "a'", "_", "\u{e9}", "0", "1", "2", "007", "18446744073709551615", "{r}", "{a'}", "&", "*", "and",
     "|", "+", "or", "-", "!", "not", "^", "xor", "nor", "nand", "=>", "implies", "in", "<=", "<=>", "iff", "eq", "if",
     "then", "else", "exists", "any", "forall", "all", "=", ">=", ">", "<", "(", ")", "[", "]", ",", "false", "true",
